@@ -290,7 +290,7 @@ class Monitor:
                     continue
                 p = c["src"]
                 key = f"{p}.e"
-                slot = exp.setdefault("e", {}).setdefault(c["dattr"], {})
+                slot = exp.setdefault(c.get("deid", "e"), {}).setdefault(c["dattr"], {})
                 if T.is_persistent(c):
                     val = NONE
                     for (pk, ptt, ott, data) in self.outs[p]:
